@@ -93,6 +93,15 @@ def load_units():
 
 def make_scratch():
     base = os.environ.get('VERIF_SCRATCH', '/var/tmp')
+    # remove scratch trees left behind by killed runs (their pid is no longer alive)
+    for d in glob.glob(os.path.join(base, 'verif-geodesy.*')):
+        try:
+            pid = int(d.rsplit('.', 1)[1])
+            os.kill(pid, 0)
+        except (ValueError, ProcessLookupError):
+            shutil.rmtree(d, ignore_errors=True)
+        except PermissionError:
+            pass
     d = os.path.join(base, f'verif-geodesy.{os.getpid()}')
     if os.path.exists(d):
         shutil.rmtree(d)
